@@ -11,12 +11,15 @@ package main
 
 import (
 	"fmt"
+	"math/bits"
 	"os"
 	"runtime/debug"
 	"sort"
 	"strconv"
 	"strings"
 	"sync"
+	"sync/atomic"
+	"time"
 
 	"verif/engine/enum"
 	"verif/engine/ev"
@@ -62,6 +65,7 @@ var forms = []opt{
 	{"not_a_or_b", "NOT (%a OR %b)"},
 	{"a_and_not_b", "%a AND NOT (%b)"},
 	{"a_or_not_b", "%a OR NOT (%b)"},
+	{"not_bare_a", "NOT %a"},
 }
 
 type tmpl struct {
@@ -401,7 +405,7 @@ func report(r *ev.Run, w *worker, c Case, first outcome) {
 				return
 			}
 		}
-		if c.Tree[0] >= 2 {
+		if c.Tree[0] >= 2 && c.Tree[0] != 9 {
 			subs := []Case{c}
 			subs[0].Tree = [3]int{1, c.Tree[1], 0}
 			if strings.Contains(forms[c.Tree[0]].text, "%b") {
@@ -473,27 +477,26 @@ func main() {
 	var trees [][3]int
 	trees = append(trees, [3]int{0, 0, 0})
 	for a := range atoms {
-		trees = append(trees, [3]int{1, a, 0}, [3]int{2, a, 0})
+		trees = append(trees, [3]int{1, a, 0}, [3]int{2, a, 0}, [3]int{9, a, 0})
 	}
-	for f := 3; f < len(forms); f++ {
-		for a := range atoms {
-			for b := range atoms {
-				if a == b {
-					continue
-				}
-				// AND / OR are commutative for the first four forms: keep a < b
-				if f <= 6 && a > b {
-					continue
-				}
+	// pairs: every form over the same two atoms before the next pair, so that a time cap
+	// cuts all connectives at the same place; AND / OR are commutative for forms 3..6
+	for a := range atoms {
+		for b := a + 1; b < len(atoms); b++ {
+			for f := 3; f <= 8; f++ {
 				trees = append(trees, [3]int{f, a, b})
+				if f > 6 {
+					trees = append(trees, [3]int{f, b, a})
+				}
 			}
 		}
 	}
 	type item struct {
-		l  rig.Layout
-		t  int
-		tr [3]int
-		ks int
+		l   rig.Layout
+		t   int
+		tr  [3]int
+		tri int
+		ks  int
 	}
 	var items []item
 	for _, l := range layouts {
@@ -502,22 +505,45 @@ func main() {
 		}
 	}
 	// simplest trees first, all layouts and templates inside each tree
-	for _, tr := range trees {
+	for tri, tr := range trees {
 		for _, l := range layouts {
 			for t := range tmpls {
-				items = append(items, item{l: l, t: t, tr: tr, ks: -1})
+				items = append(items, item{l: l, t: t, tr: tr, tri: tri, ks: -1})
 			}
 		}
 	}
 
 	pool := sync.Pool{New: func() interface{} { return &worker{rigs: map[string]*rig.Rig{}} }}
-	var nontriv sync.Map
-	var nNontriv int64
-	var ntMu sync.Mutex
+	// one bit per (template, tree, content) triple that changed rows on >= 2 tables
+	ntWords := (len(contents) + 63) / 64
+	ntBits := make([]uint64, len(tmpls)*len(trees)*ntWords)
+	mark := func(t, tri, ci int) {
+		w := (t*len(trees)+tri)*ntWords + ci/64
+		bit := uint64(1) << uint(ci%64)
+		for {
+			old := atomic.LoadUint64(&ntBits[w])
+			if old&bit != 0 || atomic.CompareAndSwapUint64(&ntBits[w], old, old|bit) {
+				return
+			}
+		}
+	}
+	errClasses := map[string]int{}
+	noteErr := func(c string) {
+		classMu.Lock()
+		errClasses[c]++
+		classMu.Unlock()
+	}
+	start := time.Now()
+	stop := func() bool {
+		if r.Quick() && os.Getenv("VERIF_BUDGET_S") == "" && time.Since(start) > 50*time.Second {
+			return true
+		}
+		return r.TimeUp()
+	}
 	var sampleMu sync.Mutex
 	sampled := map[string]bool{}
 
-	done := enum.Parallel(len(items), r.TimeUp, func(n int) {
+	done := enum.Parallel(len(items), stop, func(n int) {
 		it := items[n]
 		w := pool.Get().(*worker)
 		defer pool.Put(w)
@@ -534,7 +560,7 @@ func main() {
 			return
 		}
 		maxRows := rowsSingle
-		if it.tr[0] >= 3 {
+		if it.tr[0] >= 3 && it.tr[0] <= 8 {
 			maxRows = rowsPair
 		}
 		var nEval, nOK, nRejB, nRejE, nInvalid, nTouched2 int64
@@ -550,30 +576,25 @@ func main() {
 				continue
 			case "rejected_build":
 				nRejB++
-				r.Distinct("build_errors", errClass(o.errText))
+				noteErr("build: " + errClass(o.errText))
 				// the plan does not depend on the content
 				goto out
 			case "rejected_exec":
 				nEval++
 				nRejE++
-				r.Distinct("exec_errors", errClass(o.errText))
+				noteErr("exec: " + errClass(o.errText))
 				continue
 			}
 			nEval++
 			if o.touched >= 2 {
 				nTouched2++
-				k := fmt.Sprintf("%d/%v/%d", it.t, it.tr, ci)
-				if _, loaded := nontriv.LoadOrStore(k, true); !loaded {
-					ntMu.Lock()
-					nNontriv++
-					ntMu.Unlock()
-				}
+				mark(it.t, it.tri, ci)
 			}
 			if o.status == "violation" {
 				report(r, w, c, o)
 			} else {
 				nOK++
-				if o.touched >= 2 && it.tr[0] >= 3 {
+				if o.touched >= 2 && it.tr[0] >= 3 && it.tr[0] <= 8 {
 					key := tmpls[it.t].name
 					sampleMu.Lock()
 					if !sampled[key] && len(sampled) < 6 {
@@ -597,7 +618,12 @@ func main() {
 	if done < len(items) {
 		r.Capped(fmt.Sprintf("%d of %d (layout, statement) items, simplest WHERE trees first", done, len(items)))
 	}
+	nNontriv := 0
+	for _, w := range ntBits {
+		nNontriv += bits.OnesCount64(w)
+	}
 	r.Set("distinct_nontrivial", nNontriv)
+	r.Set("rejections_by_error_class", errClasses)
 	var names []string
 	for _, l := range layouts {
 		names = append(names, l.Name())
